@@ -93,15 +93,21 @@ func C18(c *Ctx) {
 		}
 		return n > 0
 	}
-	// the wrapped call
+	closure := pkgClosure(exec)
+	// the wrapped call: in Exec, or in the helper of Exec that runs the wrapped function
 	var K *ssa.Call
-	ssau.Instrs(exec, func(in ssa.Instruction) {
-		if cl, ok := in.(*ssa.Call); ok && cl.Common().StaticCallee() == nil && !cl.Common().IsInvoke() {
-			if _, is := isFieldLoad(cl.Common().Value, "core", "FuncAction", "F"); is {
-				K = cl
-			}
+	for _, g := range closure {
+		if K != nil {
+			break
 		}
-	})
+		ssau.Instrs(g, func(in ssa.Instruction) {
+			if cl, ok := in.(*ssa.Call); ok && cl.Common().StaticCallee() == nil && !cl.Common().IsInvoke() {
+				if _, is := isFieldLoad(cl.Common().Value, "core", "FuncAction", "F"); is {
+					K = cl
+				}
+			}
+		})
+	}
 	if K == nil {
 		c.R.Break("C18: FuncAction.Exec does not call its wrapped function F")
 		return
@@ -116,12 +122,28 @@ func C18(c *Ctx) {
 		c.R.Break("C18: FuncAction.Exec has no Bindings parameter")
 		return
 	}
+	// isGiven: every definition of v, through the helpers Exec is split into, is Exec's bindings parameter
+	isGiven := func(v ssa.Value) bool {
+		ds := deepDefs(v, closure)
+		for _, d := range ds {
+			if d != ssa.Value(bsParam) {
+				return false
+			}
+		}
+		return len(ds) > 0
+	}
 	givenOK := false
 	if len(K.Common().Args) >= 2 {
-		a1 := K.Common().Args[1]
-		givenOK = a1 == ssa.Value(bsParam)
-		if cl, isC := a1.(*ssa.Call); isC && cl.Common().StaticCallee() != nil && cl.Common().StaticCallee().Name() == "Copy" && len(cl.Common().Args) == 1 && cl.Common().Args[0] == ssa.Value(bsParam) {
-			givenOK = true // a copy of them (R6)
+		ds := deepDefs(K.Common().Args[1], closure)
+		givenOK = len(ds) > 0
+		for _, d := range ds {
+			if d == ssa.Value(bsParam) {
+				continue
+			}
+			if cl, isC := d.(*ssa.Call); isC && cl.Common().StaticCallee() != nil && cl.Common().StaticCallee().Name() == "Copy" && len(cl.Common().Args) == 1 && isGiven(cl.Common().Args[0]) {
+				continue // a copy of them (R6)
+			}
+			givenOK = false
 		}
 	}
 	c.R.Check(givenOK, "C18-R1", "Exec: wrapped function gets the given bindings", c.pos(K), "F(ctx, bs or bs.Copy(), props)", "the wrapped function is not given the bindings")
@@ -133,7 +155,6 @@ func C18(c *Ctx) {
 		}
 		return false
 	}
-	closure := pkgClosure(exec)
 	exeVal := callResults(K)[0]
 	// tracesTo: every leaf definition of v (through helpers) is one of targets
 	tracesTo := func(v ssa.Value, targets ...ssa.Value) bool {
@@ -174,17 +195,32 @@ func C18(c *Ctx) {
 		}
 		return hit
 	}
-	// anchorIn: the instruction of Exec that executes `in` (itself, or the call leading to its function)
-	var anchorIn func(in ssa.Instruction, depth int) ssa.Instruction
-	anchorIn = func(in ssa.Instruction, depth int) ssa.Instruction {
-		if in.Parent() == exec || depth > 4 {
-			return in
+	// chainOf: the instructions through which `in` is executed, innermost first: `in` itself, the only call of its
+	// function among the helpers of Exec, the only call of that call's function, ... up to an instruction of Exec
+	chainOf := func(in ssa.Instruction) []ssa.Instruction {
+		out := []ssa.Instruction{in}
+		for in.Parent() != exec {
+			sites := callSitesOf(in.Parent(), closure)
+			if len(sites) != 1 || len(out) > 5 {
+				return nil
+			}
+			in = sites[0]
+			out = append(out, in)
 		}
-		sites := callSitesOf(in.Parent(), closure)
-		if len(sites) != 1 {
-			return nil
+		return out
+	}
+	// meet: the innermost function that executes both a and b, with the instructions of it that do (a or b
+	// themselves, or the calls leading to them)
+	meet := func(a, b ssa.Instruction) (*ssa.Function, ssa.Instruction, ssa.Instruction) {
+		ca, cb := chainOf(a), chainOf(b)
+		for _, x := range ca {
+			for _, y := range cb {
+				if x.Parent() == y.Parent() {
+					return x.Parent(), x, y
+				}
+			}
 		}
-		return anchorIn(sites[0], depth+1)
+		return nil, nil, nil
 	}
 	// ---- snapshot
 	var snap *ssa.MapUpdate
@@ -230,54 +266,75 @@ func C18(c *Ctx) {
 				okBefore, whyBefore = false, "the snapshot loop can stop before it has seen every binding"
 			}
 		}
-		var target *ssa.BasicBlock
-		if S == exec {
-			target = SL.Header
-		} else if a := anchorIn(snap, 0); a != nil {
-			target = a.Block()
-			// inside the helper: the loop is reached on every path to a return that hands the map back
-			for _, b := range S.Blocks {
-				if ret, isRet := b.Instrs[len(b.Instrs)-1].(*ssa.Return); isRet && len(ret.Results) > 0 {
-					for _, d := range phiDefs(ret.Results[0], nil, map[ssa.Value]bool{}) {
-						if d == M && flow.Reachable(S.Blocks[0], b, map[*ssa.BasicBlock]bool{SL.Header: true}) && b != S.Blocks[0] {
-							okBefore, whyBefore = false, "the helper can return the map without having filled it"
-						}
-					}
-				}
-			}
-		} else {
-			okBefore, whyBefore = false, "cannot relate the snapshot to the wrapper's body"
-		}
-		if target != nil {
-			avoid := map[*ssa.BasicBlock]bool{target: true}
-			// paths around the snapshot are allowed only through the feature switch
+		// around: the blocks of fn reachable from its entry without entering `avoid`, the feature being switched
+		// on (at a test of the feature switch only the true edge is followed: the false edge may bypass)
+		around := func(fn *ssa.Function, avoid *ssa.BasicBlock) map[*ssa.BasicBlock]bool {
 			seen := map[*ssa.BasicBlock]bool{}
-			stack := []*ssa.BasicBlock{exec.Blocks[0]}
+			stack := []*ssa.BasicBlock{fn.Blocks[0]}
 			for len(stack) > 0 {
 				b := stack[len(stack)-1]
 				stack = stack[:len(stack)-1]
-				if seen[b] || avoid[b] {
+				if seen[b] || b == avoid {
 					continue
 				}
 				seen[b] = true
-				if b == K.Block() && target != K.Block() {
-					okBefore, whyBefore = false, "the wrapped function can run before (or without) the snapshot"
-					continue
-				}
 				if iff, isIf := b.Instrs[len(b.Instrs)-1].(*ssa.If); isIf && isFlag(iff.Cond) {
-					// the false edge (feature off) may bypass; follow only the true edge for the obligation
 					stack = append(stack, b.Succs[0])
 					continue
 				}
 				stack = append(stack, b.Succs...)
 			}
-			if target == K.Block() {
+			return seen
+		}
+		// the function that executes both the snapshot and the wrapped call (Exec, or the helper that does the work)
+		A, aSnap, aK := meet(snap, K)
+		var target *ssa.BasicBlock
+		if A == nil {
+			okBefore, whyBefore = false, "cannot relate the snapshot to the wrapper's body"
+		} else if S == A {
+			target = SL.Header
+		} else {
+			target = aSnap.Block()
+			// inside the helper: the loop is reached on every path to a return that hands the map back (the way
+			// on which the map is returned is what counts: `return nil` with the feature switched off is no such way)
+			free := around(S, SL.Header)
+			for _, b := range S.Blocks {
+				if ret, isRet := b.Instrs[len(b.Instrs)-1].(*ssa.Return); isRet && free[b] {
+					okBefore, whyBefore = false, "the helper that takes the snapshot can return without having run the snapshot loop"
+					for _, r := range ret.Results {
+						for _, d := range phiEdgesWithBlocks(r, b) {
+							if d.v == M && free[d.b] {
+								whyBefore = "the helper can return the map without having filled it"
+							}
+						}
+					}
+				}
+			}
+			// the helpers in between call it on every way through them
+			for _, x := range chainOf(snap)[1:] {
+				if x == aSnap {
+					break
+				}
+				free := around(x.Parent(), x.Block())
+				for _, b := range x.Parent().Blocks {
+					if _, isRet := b.Instrs[len(b.Instrs)-1].(*ssa.Return); isRet && free[b] {
+						okBefore, whyBefore = false, "a helper on the way to the snapshot can return without having taken it"
+					}
+				}
+			}
+		}
+		if target != nil {
+			// paths around the snapshot are allowed only through the feature switch
+			if free := around(A, target); free[aK.Block()] && target != aK.Block() {
+				okBefore, whyBefore = false, "the wrapped function can run before (or without) the snapshot"
+			}
+			if target == aK.Block() {
 				// same block: the snapshot call must precede K
-				if a := anchorIn(snap, 0); a == nil || flow.Index(a) > flow.Index(K) {
+				if flow.Index(aSnap) > flow.Index(aK) {
 					okBefore, whyBefore = false, "the wrapped function runs before the snapshot"
 				}
 			}
-			if flow.Reachable(K.Block(), target, nil) && target != K.Block() {
+			if flow.Reachable(aK.Block(), target, nil) && target != aK.Block() {
 				okBefore, whyBefore = false, "the snapshot can be taken after the wrapped function ran"
 			}
 		}
@@ -386,12 +443,40 @@ func C18(c *Ctx) {
 					}
 					return true
 				}
-				isZ := func(v ssa.Value) bool { n, ok := ssau.ConstInt(v); return ok && n == 0 }
-				switch {
-				case bo.Op == token.LSS && isZ(bo.X) && isLenM(bo.Y), bo.Op == token.GTR && isLenM(bo.X) && isZ(bo.Y), bo.Op == token.NEQ && (isLenM(bo.X) && isZ(bo.Y) || isZ(bo.X) && isLenM(bo.Y)):
-					return 1, true // the false edge skips
-				case bo.Op == token.EQL && (isLenM(bo.X) && isZ(bo.Y) || isZ(bo.X) && isLenM(bo.Y)):
-					return 0, true
+				// a comparison of len(saved) with a constant, one edge of which is taken exactly when the length is 0
+				// (`0 < len`, `len != 0`, `len >= 1` false; `len == 0`, `len <= 0`, `len < 1` true)
+				cmp := func(op token.Token, x, y int64) bool {
+					switch op {
+					case token.LSS:
+						return x < y
+					case token.LEQ:
+						return x <= y
+					case token.GTR:
+						return x > y
+					case token.GEQ:
+						return x >= y
+					case token.EQL:
+						return x == y
+					}
+					return x != y
+				}
+				var holds func(n int64) bool
+				switch bo.Op {
+				case token.LSS, token.LEQ, token.GTR, token.GEQ, token.EQL, token.NEQ:
+					if k, isK := ssau.ConstInt(bo.Y); isK && isLenM(bo.X) {
+						holds = func(n int64) bool { return cmp(bo.Op, n, int64(k)) }
+					} else if k, isK := ssau.ConstInt(bo.X); isK && isLenM(bo.Y) {
+						holds = func(n int64) bool { return cmp(bo.Op, int64(k), n) }
+					}
+				}
+				if holds != nil {
+					// lengths 1..3 stand for "not empty": with a constant outside -1..2 neither edge means "empty"
+					switch {
+					case holds(0) && !holds(1) && !holds(2) && !holds(3):
+						return 0, true // the true edge is "nothing was saved"
+					case !holds(0) && holds(1) && holds(2) && holds(3):
+						return 1, true // the false edge skips
+					}
 				}
 			}
 			if bo, ok := iff.Cond.(*ssa.BinOp); ok && ssau.IsNilConst(bo.Y) {
@@ -442,22 +527,32 @@ func C18(c *Ctx) {
 			}
 			return false
 		}
-		if R == exec {
-			if bypass(exec, K.Block(), RL.Header) {
+		// the function that executes both the wrapped call and the restore (Exec, or the helper that does the work)
+		A, aRes, aK := meet(restore, K)
+		switch {
+		case A == nil:
+			okAfter = false
+		case R == A:
+			if bypass(A, aK.Block(), RL.Header) {
 				okAfter = false
 			}
-		} else {
-			a := anchorIn(restore, 0)
-			if a == nil {
+		default:
+			if aRes.Block() != aK.Block() && bypass(A, aK.Block(), aRes.Block()) {
 				okAfter = false
-			} else {
-				if a.Block() != K.Block() && bypass(exec, K.Block(), a.Block()) {
-					okAfter = false
+			}
+			if aRes.Block() == aK.Block() && flow.Index(aRes) < flow.Index(aK) {
+				okAfter = false
+			}
+			// inside the helper(s): no way around the loop, nor around the call that leads to it
+			for i, x := range chainOf(restore) {
+				if x == aRes {
+					break
 				}
-				if a.Block() == K.Block() && flow.Index(a) < flow.Index(K) {
-					okAfter = false
+				target := x.Block()
+				if i == 0 {
+					target = RL.Header
 				}
-				if bypass(R, R.Blocks[0], RL.Header) {
+				if bypass(x.Parent(), x.Parent().Blocks[0], target) {
 					okAfter = false
 				}
 			}
@@ -487,6 +582,44 @@ func C18(c *Ctx) {
 		if c.scriptIsolation("C18-R4", ea, true) == 0 {
 			c.R.Break("C18-R4: no value handed to the script runtime found")
 		}
+	}
+	// frameOnlyFromExec: the wrapped call sits in an unexported helper that runs only as a part of Exec: every
+	// call of it (and of the helpers between it and Exec) is the one call on the chain from Exec, and none of them
+	// is used as a function value
+	frameOnlyFromExec := func() bool {
+		chain := chainOf(K)
+		if chain == nil {
+			return false
+		}
+		for i, x := range chain[:len(chain)-1] {
+			h := x.Parent()
+			if h.Object() == nil || h.Object().Exported() {
+				return false
+			}
+			ok := true
+			for _, f := range c.P.AllFuncs {
+				ssau.Instrs(f, func(in ssa.Instruction) {
+					if ci, isC := in.(ssa.CallInstruction); isC && ci.Common().StaticCallee() == h && in != chain[i+1] {
+						ok = false
+					}
+					for _, op := range in.Operands(nil) {
+						if *op == ssa.Value(h) {
+							if ci, isC := in.(ssa.CallInstruction); !isC || ci.Common().Value != ssa.Value(h) {
+								ok = false
+							}
+						}
+						// a method value or method expression of it (bound-method wrapper, thunk)
+						if w, isF := (*op).(*ssa.Function); isF && w != h && w.Synthetic != "" && w.Object() == h.Object() {
+							ok = false
+						}
+					}
+				})
+			}
+			if !ok {
+				return false
+			}
+		}
+		return true
 	}
 	// ---- R2 sole executor
 	actionT := c.P.NamedType("core", "Action")
@@ -559,7 +692,7 @@ func C18(c *Ctx) {
 			}
 			if !cm.IsInvoke() && cm.StaticCallee() == nil {
 				if _, is := isFieldLoad(cm.Value, "core", "FuncAction", "F"); is {
-					c.R.Check(f == exec, "C18-R2", "FuncAction.F called in "+fname(f), c.pos(in), "only FuncAction.Exec calls F", "the wrapped function is called directly, bypassing the wrapper")
+					c.R.Check(f == exec || (in == ssa.Instruction(K) && frameOnlyFromExec()), "C18-R2", "FuncAction.F called in "+fname(f), c.pos(in), "only FuncAction.Exec calls F", "the wrapped function is called directly, bypassing the wrapper")
 				}
 			}
 		})
@@ -580,7 +713,11 @@ func C18(c *Ctx) {
 	c.reportNil("C18-R3", res)
 	// restore must not create bindings: no store to Execution.Bs of the callback's execution in Exec
 	forced := false
-	for _, st := range storesTo(exec, "Execution", "Bs") {
+	var bsStores []*ssa.Store
+	for _, g := range closure {
+		bsStores = append(bsStores, storesTo(g, "Execution", "Bs")...) // in Exec or in the helpers it is split into
+	}
+	for _, st := range bsStores {
 		if st == restoreCopy {
 			// the restored copy of non-nil bindings becomes the result's bindings: non-nil stays non-nil
 			nonNil := false
@@ -596,7 +733,7 @@ func C18(c *Ctx) {
 			}
 		}
 		if fa, ok := st.Addr.(*ssa.FieldAddr); ok {
-			for _, d := range phiDefs(fa.X, nil, map[ssa.Value]bool{}) {
+			for _, d := range deepDefs(fa.X, closure) {
 				if ex, isEx := d.(*ssa.Extract); isEx && ex.Tuple == ssa.Value(K) {
 					forced = true
 				}
@@ -687,7 +824,25 @@ func c18Failure(c *Ctx) {
 		}
 		return 0
 	}
-	failedAt := func(b *ssa.BasicBlock) bool { return verdict(flow.FactsAt(b)) == 1 }
+	// failedAt: the action is known to have failed at b: by the facts at b, or b lies in a helper that is only
+	// called where the action is known to have failed (`if err != nil { return s.actionFailed(bs, err, ...) }`)
+	var failedAtD func(b *ssa.BasicBlock, depth int) bool
+	failedAtD = func(b *ssa.BasicBlock, depth int) bool {
+		if verdict(flow.FactsAt(b)) == 1 {
+			return true
+		}
+		if b.Parent() == step || depth > 4 {
+			return false
+		}
+		sites := callSitesOf(b.Parent(), stepFns)
+		for _, s := range sites {
+			if !failedAtD(s.Block(), depth+1) {
+				return false
+			}
+		}
+		return len(sites) > 0
+	}
+	failedAt := func(b *ssa.BasicBlock) bool { return failedAtD(b, 0) }
 	var stParam *ssa.Parameter
 	for _, p := range step.Params {
 		if ssau.TypeIs(p.Type(), prog.Abs("core"), "State") {
